@@ -1,7 +1,9 @@
 package core
 
 import (
+	"crypto/sha1"
 	"encoding/json"
+	"fmt"
 	"go/ast"
 	"go/types"
 	"os"
@@ -31,6 +33,8 @@ type RefFunc struct {
 	Recv    string   `json:"recv,omitempty"`
 	Name    string   `json:"name"`
 	Sig     string   `json:"sig"`
+	Index   int      `json:"index"`             // order of declaration in the package (file name, offset): last tie-break
+	Shape   string   `json:"shape,omitempty"`   // hash of the body's syntax shape without identifier names: tells same-signature siblings apart
 	Callers []string `json:"callers,omitempty"` // keys of the module functions that call it (static and interface-expanded)
 }
 
@@ -40,6 +44,7 @@ type RefField struct {
 	Owner string `json:"owner"`
 	Name  string `json:"name"`
 	Type  string `json:"type"`
+	Index int    `json:"index"` // position in the struct / order of declaration in the package: pairs same-typed siblings
 }
 
 // RefPath is where the table is read from (set by the command line; empty: no table, names are taken as they are).
@@ -112,6 +117,90 @@ func sigString(fn *types.Func) string {
 	return b.String()
 }
 
+// declOrder numbers the functions of each package in order of declaration (file base name, offset).
+func (p *Program) declOrder() map[*types.Func]int {
+	byPkg := map[string][]*FuncDecl{}
+	for _, fd := range p.Funcs {
+		byPkg[fd.Pkg.PkgPath] = append(byPkg[fd.Pkg.PkgPath], fd)
+	}
+	out := map[*types.Func]int{}
+	for _, l := range byPkg {
+		sort.Slice(l, func(i, j int) bool {
+			pa, pb := p.Fset.Position(l[i].Decl.Pos()), p.Fset.Position(l[j].Decl.Pos())
+			if pa.Filename != pb.Filename {
+				return filepath.Base(pa.Filename) < filepath.Base(pb.Filename)
+			}
+			return pa.Offset < pb.Offset
+		})
+		for i, fd := range l {
+			out[fd.Obj] = i
+		}
+	}
+	return out
+}
+
+// shapeOf hashes the syntax shape of a function body: node kinds, operators and literal values, no identifier names.
+func shapeOf(body *ast.BlockStmt) string {
+	if body == nil {
+		return ""
+	}
+	h := sha1.New()
+	ast.Inspect(body, func(n ast.Node) bool {
+		if n == nil {
+			h.Write([]byte(")"))
+			return true
+		}
+		switch x := n.(type) {
+		case *ast.Ident:
+			h.Write([]byte("i"))
+		case *ast.BasicLit:
+			h.Write([]byte("l" + x.Value))
+		case *ast.BinaryExpr:
+			h.Write([]byte("b" + x.Op.String()))
+		case *ast.UnaryExpr:
+			h.Write([]byte("u" + x.Op.String()))
+		case *ast.AssignStmt:
+			h.Write([]byte("a" + x.Tok.String()))
+		case *ast.BranchStmt:
+			h.Write([]byte("j" + x.Tok.String()))
+		default:
+			h.Write([]byte(fmt.Sprintf("%T(", n)))
+		}
+		return true
+	})
+	return fmt.Sprintf("%x", h.Sum(nil))[:12]
+}
+
+// pkgVarsInOrder lists the package-level variables in order of declaration.
+func (p *Program) pkgVarsInOrder(pk *types.Package) []*types.Var {
+	var out []*types.Var
+	sc := pk.Scope()
+	for _, n := range sc.Names() {
+		if v, ok := sc.Lookup(n).(*types.Var); ok {
+			out = append(out, v)
+		}
+	}
+	// by file name and offset (token.Pos values depend on the order in which files were parsed)
+	sort.Slice(out, func(i, j int) bool { return p.varBefore(out[i], out[j]) })
+	return out
+}
+
+func (p *Program) varBefore(a, b *types.Var) bool {
+	pa, pb := p.Fset.Position(a.Pos()), p.Fset.Position(b.Pos())
+	if pa.Filename != pb.Filename {
+		return filepath.Base(pa.Filename) < filepath.Base(pb.Filename)
+	}
+	return pa.Offset < pb.Offset
+}
+
+type litKeyName struct {
+	id        *ast.Ident
+	real, ref string
+}
+
+// UnresolvedRefs lists the functions of the reference table that are absent from this tree and were not matched.
+func (p *Program) UnresolvedRefs() []string { return p.unresolved }
+
 // BuildRefTable lists the functions and struct fields of the loaded tree.
 func (p *Program) BuildRefTable() *RefTable {
 	t := &RefTable{}
@@ -127,13 +216,14 @@ func (p *Program) BuildRefTable() *RefTable {
 			callers[c][fd.Key()] = true
 		}
 	}
+	order := p.declOrder()
 	for _, fd := range p.Funcs {
 		var cs []string
 		for k := range callers[fd.Obj] {
 			cs = append(cs, k)
 		}
 		sort.Strings(cs)
-		t.Funcs = append(t.Funcs, RefFunc{Pkg: fd.Pkg.PkgPath, Recv: RecvTypeName(fd.Obj.Type().(*types.Signature)), Name: fd.Obj.Name(), Sig: sigString(fd.Obj), Callers: cs})
+		t.Funcs = append(t.Funcs, RefFunc{Pkg: fd.Pkg.PkgPath, Recv: RecvTypeName(fd.Obj.Type().(*types.Signature)), Name: fd.Obj.Name(), Sig: sigString(fd.Obj), Index: order[fd.Obj], Shape: shapeOf(fd.Decl.Body), Callers: cs})
 	}
 	q := func(pk *types.Package) string { return pk.Path() }
 	for _, nt := range p.Named {
@@ -143,18 +233,15 @@ func (p *Program) BuildRefTable() *RefTable {
 		}
 		for i := 0; i < st.NumFields(); i++ {
 			f := st.Field(i)
-			t.Fields = append(t.Fields, RefField{Pkg: nt.Obj().Pkg().Path(), Owner: nt.Obj().Name(), Name: f.Name(), Type: types.TypeString(f.Type(), q)})
+			t.Fields = append(t.Fields, RefField{Pkg: nt.Obj().Pkg().Path(), Owner: nt.Obj().Name(), Name: f.Name(), Type: types.TypeString(f.Type(), q), Index: i})
 		}
 	}
 	for _, pk := range p.Pkgs {
 		if skipPkg(pk.PkgPath) {
 			continue
 		}
-		sc := pk.Types.Scope()
-		for _, n := range sc.Names() {
-			if v, ok := sc.Lookup(n).(*types.Var); ok {
-				t.Vars = append(t.Vars, RefField{Pkg: pk.PkgPath, Name: v.Name(), Type: types.TypeString(v.Type(), q)})
-			}
+		for i, v := range p.pkgVarsInOrder(pk.Types) {
+			t.Vars = append(t.Vars, RefField{Pkg: pk.PkgPath, Name: v.Name(), Type: types.TypeString(v.Type(), q), Index: i})
 		}
 	}
 	sort.Slice(t.Funcs, func(i, j int) bool {
@@ -211,6 +298,7 @@ func (p *Program) resolveRenames() {
 	sort.Slice(missing, func(i, j int) bool {
 		return missing[i].Pkg+missing[i].Recv+missing[i].Name < missing[j].Pkg+missing[j].Recv+missing[j].Name
 	})
+	curOrder := p.declOrder()
 	for _, m := range missing {
 		var cands []*FuncDecl
 		for k, fd := range cur {
@@ -228,9 +316,45 @@ func (p *Program) resolveRenames() {
 				same++
 			}
 		}
+		if !(len(cands) == 1 && same == 1) && m.Shape != "" {
+			// same-signature siblings renamed together: the one whose body has the same shape; siblings that share the
+			// shape too are paired in order of declaration
+			var group []RefFunc
+			for _, o := range missing {
+				if o.Pkg == m.Pkg && o.Recv == m.Recv && o.Sig == m.Sig && o.Shape == m.Shape {
+					group = append(group, o)
+				}
+			}
+			var cg []*FuncDecl
+			for _, c := range cands {
+				if shapeOf(c.Decl.Body) == m.Shape {
+					cg = append(cg, c)
+				}
+			}
+			if len(group) == len(cg) && len(cg) >= 1 {
+				sort.Slice(group, func(i, j int) bool { return group[i].Index < group[j].Index })
+				sort.Slice(cg, func(i, j int) bool { return curOrder[cg[i].Obj] < curOrder[cg[j].Obj] })
+				for k, o := range group {
+					if o.Name == m.Name {
+						cands, same = []*FuncDecl{cg[k]}, 1
+					}
+				}
+			}
+		}
 		if len(cands) == 1 && same == 1 {
 			renamedFuncs[cands[0].Obj] = m.Name
 			p.renames = append(p.renames, FuncKeyRaw(m.Pkg, m.Recv, m.Name)+" -> "+cands[0].Obj.Name())
+		}
+	}
+	for _, m := range missing {
+		found := false
+		for obj, old := range renamedFuncs {
+			if old == m.Name && obj.Pkg() != nil && obj.Pkg().Path() == m.Pkg && RecvTypeName(obj.Type().(*types.Signature)) == m.Recv {
+				found = true
+			}
+		}
+		if !found {
+			p.unresolved = append(p.unresolved, FuncKeyRaw(m.Pkg, m.Recv, m.Name))
 		}
 	}
 	// a function that is gone without a successor, and had exactly one caller on the reference tree which is still
@@ -298,6 +422,26 @@ func (p *Program) resolveRenames() {
 					same++
 				}
 			}
+			if len(cands) == same && same > 1 {
+				// same-typed siblings renamed together: paired in order of declaration
+				var miss []RefField
+				for _, o := range rf {
+					if _, present := have[o.Name]; !present && o.Type == m.Type {
+						miss = append(miss, o)
+					}
+				}
+				sort.Slice(miss, func(i, j int) bool { return miss[i].Index < miss[j].Index })
+				idx := map[*types.Var]int{}
+				for i := 0; i < st.NumFields(); i++ {
+					idx[st.Field(i)] = i
+				}
+				sort.Slice(cands, func(i, j int) bool { return idx[cands[i]] < idx[cands[j]] })
+				for k, o := range miss {
+					if o.Name == m.Name {
+						cands, same = []*types.Var{cands[k]}, 1
+					}
+				}
+			}
 			if len(cands) == 1 && same == 1 {
 				renamedFields[cands[0]] = m.Name
 				p.renames = append(p.renames, ShortPkg(m.Pkg)+"."+m.Owner+"."+m.Name+" -> "+cands[0].Name())
@@ -341,6 +485,21 @@ func (p *Program) resolveRenames() {
 					same++
 				}
 			}
+			if len(cands) == same && same > 1 {
+				var miss []RefField
+				for _, o := range rv {
+					if _, present := have[o.Name]; !present && o.Type == m.Type {
+						miss = append(miss, o)
+					}
+				}
+				sort.Slice(miss, func(i, j int) bool { return miss[i].Index < miss[j].Index })
+				sort.Slice(cands, func(i, j int) bool { return p.varBefore(cands[i], cands[j]) })
+				for k, o := range miss {
+					if o.Name == m.Name {
+						cands, same = []*types.Var{cands[k]}, 1
+					}
+				}
+			}
 			if len(cands) == 1 && same == 1 {
 				renamedVars[cands[0]] = m.Name
 				p.renames = append(p.renames, ShortPkg(m.Pkg)+"."+m.Name+" -> "+cands[0].Name())
@@ -356,7 +515,7 @@ func (p *Program) resolveRenames() {
 	// not by their text, so nothing else changes; rules that look at selector names, printed expressions or paths see
 	// the names they were written against.
 	for _, pk := range p.Pkgs {
-		// (the keys of struct literals stay as written: go/ssa resolves them by text)
+		// (go/ssa resolves the keys of struct literals by text: they are remembered, see Program.SSA)
 		litKey := map[*ast.Ident]bool{}
 		for _, f := range pk.Syntax {
 			ast.Inspect(f, func(n ast.Node) bool {
@@ -373,10 +532,14 @@ func (p *Program) resolveRenames() {
 			})
 		}
 		rn := func(id *ast.Ident, o types.Object) {
-			if o == nil || id.Name == "_" || litKey[id] {
+			if o == nil || id.Name == "_" {
 				return
 			}
 			if n := RefName(o); n != "" && n != o.Name() && id.Name == o.Name() {
+				if litKey[id] {
+					// renamed too, but written back for the time go/ssa is built (see Program.SSA)
+					p.litKeys = append(p.litKeys, litKeyName{id, id.Name, n})
+				}
 				id.Name = n
 			}
 		}
